@@ -111,13 +111,20 @@ package tm
 //@   ensures ghost.commit_sends == old(ghost.commit_sends) && ghost.rollback_sends == old(ghost.rollback_sends)
 
 //@ func WithGlobalTx
-//@   prop C04
+//@   prop C04 C07
 //@   requires ctx != nil
 //@   requires ghost.commit_sends == 0 && ghost.rollback_sends == 0 && ghost.begin_sends == 0 && ghost.other_sends == 0 && !ghost.commit_acked && !ghost.rollback_acked && ghost.biz_calls == 0 && !ghost.biz_panicked
-//@   ensures decision-once: !called("commitOrRollback#2")
-//@   ensures decision-argument: called("commitOrRollback#1") ==> callarg("commitOrRollback#1", 1) == (ghost.biz_calls == 1 && ghost.biz_err_nil && !ghost.biz_panicked)
-//@   ensures decision-after-business: called("commitOrRollback#1") ==> ghost.biz_calls == 1
-//@   ensures surface: result == nil ==> ghost.biz_calls == 1 && ghost.biz_err_nil && !ghost.biz_panicked && (called("commitOrRollback#1") ==> callres("commitOrRollback#1", 0) == nil)
-//@   ensures business-once: ghost.biz_calls <= 1
-//@   ensures begin-failure-surfaces: called("begin#1") && callres("begin#1", 0) != nil ==> result != nil && ghost.biz_calls == 0 && !called("commitOrRollback#1")
-//@   ensures_on_panic no-panic-escapes: false
+//@   ensures C04/decision-once: !called("commitOrRollback#2")
+//@   ensures C04/decision-argument: called("commitOrRollback#1") ==> callarg("commitOrRollback#1", 1) == (ghost.biz_calls == 1 && ghost.biz_err_nil && !ghost.biz_panicked)
+//@   ensures C04/decision-after-business: called("commitOrRollback#1") ==> ghost.biz_calls == 1
+//@   ensures C04/surface: result == nil ==> ghost.biz_calls == 1 && ghost.biz_err_nil && !ghost.biz_panicked && (called("commitOrRollback#1") ==> callres("commitOrRollback#1", 0) == nil)
+//@   ensures C04/business-once: ghost.biz_calls <= 1
+//@   ensures C04/begin-failure-surfaces: called("begin#1") && callres("begin#1", 0) != nil ==> result != nil && ghost.biz_calls == 0 && !called("commitOrRollback#1")
+//@   ensures_on_panic C04/no-panic-escapes: false
+//@   let cv0 := ctxvalue(ctx, seataContextVariable)
+//@   let in_gtx := isT(cv0, *ContextVariable) && cv0.(*ContextVariable) != nil && cv0.(*ContextVariable).Xid != ""
+//@   let xid0 := ite(in_gtx, cv0.(*ContextVariable).Xid, "")
+//@   let role0 := ite(in_gtx, cv0.(*ContextVariable).TxRole, 0)
+//@   let name0 := ite(in_gtx, cv0.(*ContextVariable).TxName, "")
+//@   ensures C07/frame: in_gtx ==> cv0.(*ContextVariable).Xid == xid0 && cv0.(*ContextVariable).TxRole == role0 && cv0.(*ContextVariable).TxName == name0
+//@   ensures_on_panic C07/frame-on-panic: in_gtx ==> cv0.(*ContextVariable).Xid == xid0 && cv0.(*ContextVariable).TxRole == role0 && cv0.(*ContextVariable).TxName == name0
